@@ -131,7 +131,7 @@ VerifySF(R, s) ==
 VerifyDH(R) ==
   /\ "verifydh" \in Ops /\ IsDir(disk, R) /\ Len(hist[R]) > 0
   /\ LET r == TLCEval(VerifyDHResult(hist, disk, R, <<>>))
-     IN ReadOnly([op |-> "verifydh", R |-> R], [exit |-> r.exit, missing |-> {}, mismatch |-> r.baddirs, new |-> {}],
+     IN ReadOnly([op |-> "verifydh", R |-> R, co |-> FALSE, h |-> ""], [exit |-> r.exit, missing |-> {}, mismatch |-> r.baddirs, new |-> {}],
                  EffPats(hist, R, <<>>))
 
 \* flatten writes a packing list outside the tree; `flat` remembers what it holds and the tree it was made from
@@ -181,6 +181,12 @@ HashCmd(s) ==
        /\ Log([op |-> "hash", S |-> s, h |-> f])
   /\ UNCHANGED <<disk, hist, sealed, flat>>
 
+\* verify -dh -co: only calculates and prints, never fails
+VerifyDHCO(R) ==
+  /\ "verifydhco" \in Ops /\ IsDir(disk, R)
+  /\ ReadOnly([op |-> "verifydh", R |-> R, co |-> TRUE, h |-> ""], [exit |-> IF FALSE THEN 12 ELSE 0, missing |-> {}, mismatch |-> {}, new |-> {}],
+              EffPats(hist, R, <<>>))
+
 Ack == last.op.op # "none" /\ last' = NoLast /\ UNCHANGED <<disk, hist, sealed, flat, behav>>
 
 Next ==
@@ -194,6 +200,7 @@ Next ==
         \/ \E R \in CmdRoots, F \in FmtChoices, S \in SFChoices : CreateSF(R, F, S)
         \/ \E R \in CmdRoots, P \in PatChoices : Verify(R, P) \/ Diff(R, P)
         \/ \E R \in CmdRoots, s \in FilePaths : VerifySF(R, s)
+        \/ \E R \in CmdRoots : VerifyDHCO(R)
         \/ \E R \in CmdRoots : VerifyDH(R) \/ Flatten(R) \/ VerifyPL(R) \/ Info(R)
         \/ \E s \in FilePaths : InfoSF(s) \/ HashCmd(s)
 
@@ -239,6 +246,8 @@ Inv_C18_VerifyPL    == (Obs /\ last.op.op = "verifypl") => P_C18_VerifyPL(disk, 
 Inv_C19_Info        == (Obs /\ last.op.op = "info") => P_C19_Info(pre, disk, last.op, last.ob)
 Inv_C19_InfoSF      == (Obs /\ last.op.op = "infosf") => P_C19_InfoSF(pre, disk, last.op, last.ob)
 Inv_C14_Frame       == (Obs /\ last.op.op \notin {"create", "createsf"}) => hist = pre
+Inv_C09_Identical   == (Obs /\ last.op.op = "verifydh") => P_C09_Identical(pre, disk, last.op, last.ob)
+Inv_C09_Detects     == (Obs /\ last.op.op = "verifydh" /\ UniformFormats(pre, disk, last.op.R)) => P_C09_Detects(pre, disk, last.op, last.ob)
 Inv_NoInternal      == ~last.ob.internal
 \* C04 as an action property: the first recorded digest of a path and format never changes
 Act_C04_FirstRefStable ==
